@@ -42,7 +42,7 @@ m('c02-replace-no-rev', 'C02', WD, 'in self.matches.into_iter().rev()', 'in self
 m('c02-join-zwsp', 'C02', WD, 'out.join("")', 'out.join("\\u{200b}").replace(\'\\u{200b}\', "")', 'V02|B11')
 # --- C03
 m('c03-text2digits-unwrap', 'C03', WD, 'pub fn text2digits<T: LangInterpreter>(text: &str, lang: &T) -> Result<String, Error> {\n',
-  'pub fn text2digits<T: LangInterpreter>(text: &str, lang: &T) -> Result<String, Error> {\n    let _first = text.split_whitespace().next().unwrap();\n', 'B1-PANIC-SITES')
+  'pub fn text2digits<T: LangInterpreter>(text: &str, lang: &T) -> Result<String, Error> {\n    let _first = text.split_whitespace().next().unwrap();\n', 'B1-PANIC-SITES|V03')
 m('c03-put-drop-short-arm', ['C03', 'C12'], DS, '            l if l < positions => Err(Error::Overlap),\n', '', 'B1-PANIC-SITES')
 m('c03-match-sep-no-next', 'C03', TK, '                if c.is_alphanumeric() {\n                    break *pos;\n                }\n                self.chars.next();',
   '                if c.is_alphanumeric() {\n                    break *pos;\n                }\n                if false { self.chars.next(); }', 'B2-PROGRESS')
@@ -75,7 +75,6 @@ m('c06-advance-start-always', 'C06', WD, '        if self.match_start == self.ma
 m('c07-revert-f05', ['C07', 'C12'], DS, '        if implicit_one {\n            padding_zeroes -= 1;\n        }', '        if implicit_one {\n            self.buffer[l - 1] = b\'1\';\n            padding_zeroes -= 1;\n        }', 'B3-FAIL-ATOMIC')
 m('c07-retry-with-test', ['C07', 'C15'], WD, 'if self.parser.push(lo_token).is_ok() {', 'if self.parser.push(test).is_ok() {', 'V')
 m('c07-drop-number-end', ['C07', 'C15'], WD, '            Err(_) if self.parser.has_number() => {\n                self.number_end();', '            Err(_) if self.parser.has_number() => {', 'V')
-m('c07-second-interpreter', 'C07', WD, '        let text = token.text();\n        if !(', '        let text = token.text();\n        let _ = self.lang.apply(token.text_lowercase(), &mut DigitString::new());\n        if !(', 'V')
 # --- C08
 m('c08-en-seven-unguarded', 'C08', EN, '"seven" | "seventh" if b.peek(2) != b"10" => b.put(b"7"),', '"seven" | "seventh" => b.put(b"7"),', 'A7')
 m('c08-de-vier-no-block', 'C08', DE, '            "vier" | "vierte" if b.is_free(2) => {\n                to_block = Excludable::TENS;\n                b.put(b"4")', '            "vier" | "vierte" if b.is_free(2) => {\n                b.put(b"4")', 'A7')
@@ -132,7 +131,7 @@ m('c16-revert-f13', 'C16', IT, '"milione" if b.is_range_free(6, 8) => {\n       
 m('c16-en-zero-guarded', ['C16', 'C08'], EN, '"zero" | "o" | "nought" => b.put(b"0"),\n            "one"', '"zero" | "o" | "nought" if b.is_empty() => b.put(b"0"),\n            "one"', 'A6-ZERO')
 m('c16-is-empty-ignores-zeros', ['C16', 'C12'], DS, '        self.buffer.is_empty() && self.leading_zeroes == 0\n', '        self.buffer.is_empty()\n', 'V12|V')
 m('c16-count-zero-nonempty', ['C16', 'C12', 'C08'], DS, '        if self.buffer.is_empty() && digits == b"0" {', '        if digits == b"0" {', 'V12')
-m('c16-to-string-drops-zeros', ['C16', 'C12'], DS, '        let mut res = "0".repeat(self.leading_zeroes);', '        let mut res = "0".repeat(self.leading_zeroes.min(0));\n        let _ = self.leading_zeroes;', 'B')
+m('c16-to-string-drops-zeros', ['C16', 'C12'], DS, '        let mut res = "0".repeat(self.leading_zeroes);', '        let mut res = "0".repeat(self.leading_zeroes.min(0));\n        let _ = self.leading_zeroes;', 'V12|A0')
 # --- C17
 m('c17-revert-f14', 'C17', EN, 'all(|c| c.is_whitespace())', 'all(|c| c.is_ascii_whitespace())', 'B10-WS')
 m('c17-is-whitespace-ascii', 'C17', WD, 'token.chars().all(char::is_whitespace)', 'token.chars().all(|c| c.is_ascii_whitespace())', 'B10-WS')
